@@ -49,6 +49,9 @@ CLAIMED = {
  "C12": ("origin analysis of reference-carrying values (fresh / caller's / internal field / global storage) with interprocedural summaries over the VTA call graph; who-may-write enumeration of every field and element of the immutable types with under-construction / once-guard classification of the written object; caller enumeration of the zero-copy bridge; sync.Once discipline of the lazy decode and memoized encoding",
          "Decides for every store into item/message/body/decode-state storage that the stored slice, map or raw pointer is fresh, a copy, or owned storage on a documented ownership-transfer path; for every exported function and method of those types that no returned slice/map/pointer is internal field storage; for every write to a field or element of those types that the written object is still under construction or the write runs under the object's own sync.Once; and that the lazy decode/encode run at most once and are shared by re-stamped copies. Race freedom is argued from these facts, not observed.",
          "§4 C12"),
+ "C16": ("decision tables of the clamp functions; classification of every element appended to (or written into) a numeric item's values as clamp result / bound / widening / guarded conversion, with branch-fact analysis of the overflow switch; default-arm analysis of every constructor type switch; who-may-call analysis of wire.FromItem and dominance of the item.Error() gate; per-arm path analysis of childClean over every concrete item type; panic/assertion scan of the constructor code",
+         "Decides that the clamp helpers clamp to the nearest bound on every ordering cell, that no constructor path stores an unclamped caller value where it may be out of range (F4 overflow switch included), that unsupported argument types always yield an errored item, that a constructed item becomes a message body only inside NewDataMessage behind its Error() gate and every session send path builds through it, that a list is reported clean only if every child of every concrete type has no deferred error, that Equal refuses errored items first, and that constructor code contains no explicit panic or unchecked assertion. Numeric results beyond the clamp tables are not decided.",
+         "§4 C16"),
  "C14": ("bounds/size obligations over the parse fragment decided by linear integer arithmetic on SSA values with inductively inferred contracts and Parser field invariants (data = input[pos:], len = len(input), 0 ≤ pos ≤ len); recursion-cycle depth-parameter analysis; provenance of every ParseError offset and decision table of the line/column scan; who-may-write enumeration of package variables and Parser/Encoder fields",
          "Decides that every index/slice of the scan window, every forward/backward step and every allocation size (make, Builder.Grow) reachable from the Parse entry points is in range / bounded by the unread input for every text, that list nesting is depth-bounded before recursion, that every syntax error's offset is a parser position clamped to len(input) with line/column derived from exactly that prefix, and that parser/encoder instances share no mutable state. Does not decide running time or messages' values.",
          "§4 C14"),
